@@ -78,6 +78,28 @@ CHECKS["C16"] = dict(
     design="DESIGN.md section 4 C16",
     technique="contract-based: z3 regex/string VCs and path contracts on the real registration code + exhaustive evaluation of ground binding obligations over the finite registry")
 
+CHECKS["C10"] = dict(
+    text=("Path contracts proved on the real version-converter code, exhaustive over the supported opset range of the property "
+          "(18..25) and over adapter behaviours (none / declines / replaces / raises): after visit_model the model and every function "
+          "declare the target opset with the ai.onnx alias removed and every default-domain node left in the graph carries the target "
+          "version (live graph iteration modelled as in onnx_ir); a refused down-conversion touches nothing; convert_version accepts "
+          "exactly 18..25 (symbolic target, LIA); decision table of _ConvertVersionPassRequiresInline.call incl. failed fallback leaves "
+          "the model untouched; adapters dft_19_20 / gridsample_19_20 forward inputs and attributes exactly (symbolic attribute values); "
+          "ModelProto entry point: every top-level field comes from the converted model. One known finding (adapter raises -> half-converted)."),
+    note=("Assumed: ONNX C++ version converter (fallback), onnx_ir InlinePass/NameFixPass/replace_nodes_and_values, numerical equality of "
+          "ops across opsets beyond the adapters; groupnormalization_20_21's Reshape/Expand arithmetic is NOT under contract."),
+    design="DESIGN.md section 4 C10")
+CHECKS["C15"] = dict(
+    text=("Proof of the wrapper contracts: each API accepting ModelProto or ir.Model (optimize, fold_constants, remove_unused_nodes, "
+          "remove_unused_functions, rewrite, convert_version, replace_functions) is executed from its real source on an abstract "
+          "ModelProto (record of all 11 top-level fields with provenance tokens) and on an abstract ir.Model; obligations per field: the "
+          "proto result equals the serialization of the IR model obtained by applying exactly the passes of the IR form (same passes, "
+          "options, order) to deserialize(argument); in-place APIs leave the argument equal to it in every field, functional APIs do not "
+          "write their argument; rewrite with an empty rule list returns its argument."),
+    note=("Residual, not claimed: 'deserializing and re-serializing through onnxscript.ir loses no information' is a property of the onnx_ir "
+          "package (onnxscript/ir/__init__.py re-exports it); protobuf Clear/CopyFrom semantics assumed."),
+    design="DESIGN.md section 4 C15")
+
 NOT_APPLICABLE = {
     "C08": "oracle is PyTorch eager for ~550 ATen ops; no contract within reach can state it (DESIGN.md section 5)",
     "C19": "fused operators are ONNX Runtime contrib kernels defined only by ORT C++; no deductive oracle (DESIGN.md section 5)",
